@@ -236,6 +236,9 @@ def families(check_fn, configs=None, thorough=False):
                "millisecond / sub-millisecond / unbounded intervals"))
   fams.append(("F-ruby", 8, lambda i: wc.ruby_doc(i % 4, i // 4), cfgs, "ruby patterns"))
   al = wc.fam_align_items()
+  fams.append(("F-hiding", len(wc.HIDING_MODES), lambda i: wc.hiding_doc(wc.HIDING_MODES[i]), cfgs,
+               "text that is presented but not visible: tts:visibility hidden on span / p / region / as initial value, re-shown by an inner 'visible', "
+               "switched by animation steps; tts:opacity 0 and 0.5 on the region"))
   ge = wc.fam_geom_items()
   fams.append(("F-geometry", ge.n, lambda i: wc.geom_doc(*ge.decode(i)), [c for c in cfgs if c[0] == "vtt"],
                "region origin / height with fractional percentages and regions reaching beyond the root container x display alignment"))
